@@ -46,6 +46,8 @@ pub const CS_OK_TEXTS: &[&str] = &["B:FF,a:00Ab", "b:00,a:11", "A:00", "a:FF", "
 pub const EMPTY_TEXT: &str = "<empty>";
 pub const CS_BAD_TEXTS: &[&str] = &[
     "sha1:xyz", "sha1:00,sha1:11", "a:00,a:00", "a:0", "a", ",", "a:00,,b:11", "md5:00,MD5:11", "a:00,b:11,b:22", "a:00,", "é:00,É:11", "a:0g", "a:+a", "a:-1", "a: 0", "sha1:0x",
+    // bare digests of the usual sizes (nothing may guess the algorithm)
+    "0123456789abcdef0123456789abcdef", "0123456789abcdef0123456789abcdef01234567", "0123456789abcdef0123456789abcdef0123456789abcdef0123456789abcdef", "a:00,0123456789abcdef0123456789abcdef",
 ];
 
 impl Cfg {
